@@ -487,6 +487,9 @@ def parse_journal(text):
 def run_case(ctx, case, hook=False, timeout=20, keep=False):
     """copy the template, write the behaviour files, run `xvc pipeline run` case['runs'] times.
     returns list of observations (one per run)"""
+    if case.get('history'):
+        import sched_history
+        return sched_history.run_history(ctx, case, hook=hook, timeout=timeout, keep=keep)
     spec = case['spec']
     tbase, _ = build_template(ctx, spec, case.get('absent_outputs', False))
     with ctx.lock:
@@ -573,6 +576,9 @@ def oracle(case, o, first_run=True):
     Uses only: the pipeline as it was defined (case), the journal written by the step commands, exit status/output
     of xvc, the clock.  Independent of the Lean model and of the hooks (the `verdict` clause reads the hook trace
     when there is one and is labelled so)."""
+    if case.get('history'):
+        # a run of an edited pipeline is judged on the pipeline as it was defined at that stage
+        return oracle(o['stage_case'], o)
     spec, n = case['spec'], case['spec']['n']
     deps = spec_deps(spec)
     whens = spec['whens']
@@ -618,6 +624,8 @@ def oracle(case, o, first_run=True):
         if o.get('hook') and o.get('trace') is not None:
             final = trace_final_states(o['trace'])
             for i in range(n):
+                if i in spec.get('absent', []):
+                    continue                    # not defined at this stage of an edited pipeline
                 st = final.get(f's{i}')
                 if st is None or st.split('(')[0] not in ('DoneByRunning', 'DoneWithoutRunning', 'Broken'):
                     fail('C11', 'verdict', f'step s{i} ended without a verdict: last published state {st} (hook trace)', final=final)
@@ -720,7 +728,9 @@ def trace_final_states(trace):
 
 # ------------------------------------------------------------------------------------------------ trace tie
 
-def driver_input(case, trace, cid):
+def driver_input(case, trace, cid, header=None):
+    if header is not None:
+        return [f'case {cid}'] + list(header) + ['trace-begin'] + list(trace) + ['trace-end']
     spec = case['spec']
     L = [f'case {cid}', f'n {spec["n"]} pool {case["pool"]}']
     for i in range(spec['n']):
@@ -758,8 +768,9 @@ def validate_traces(ctx, items):
     if not ctx.model:
         return [None] * len(items)
     lines = []
-    for k, (case, trace) in enumerate(items):
-        lines += driver_input(case, trace, k)
+    for k, item in enumerate(items):
+        case, trace = item[0], item[1]
+        lines += driver_input(case, trace, k, item[2] if len(item) > 2 else None)
     rc, out, err = common.run_lines(ctx.model, ['sched-validate'], lines, timeout=1200)
     if rc != 0 or len(out) != len(items):
         return [f'driver-failure rc={rc} answers={len(out)} {err[-300:]}'] * len(items)
@@ -773,7 +784,9 @@ def signature(case, f):
     spec = case['spec']
     deps = spec_deps(spec)
     sig = {'property': f['property'], 'clause': f['clause']}
-    if f['clause'] in ('terminates', 'leftover') and case.get('fault'):
+    if f['clause'] == 'terminates' and str(case.get('label', '')).startswith('long-wait'):
+        sig['kind'] = 'hang-after-100000-published-states (bounded notifier channel full)'
+    elif f['clause'] in ('terminates', 'leftover') and case.get('fault'):
         sig['kind'] = 'hang-when-output-cannot-be-delivered' if f['clause'] == 'terminates' else 'process-left-behind-after-output-fault'
     elif f['clause'] == 'terminates':
         if any(b['err'] > PIPE_BUF_LINUX for b in case['behav']):
@@ -790,6 +803,8 @@ def signature(case, f):
             sig['kind'] = 'hang'
     elif f['clause'] == 'pool':
         sig['kind'] = 'pool-exceeded-after-unspawnable-command' if spec.get('unspawnable') else 'pool-exceeded'
+    elif case.get('history') and f['clause'] in ('order', 'downstream'):
+        sig['kind'] = 'implicit-edge-missing-after-pipeline-edit'
     elif f['clause'] in ('status', 'downstream') and any(b.get('signal') for b in case['behav']):
         sig['kind'] = 'command-terminated-by-signal-counts-as-done'
     elif f['clause'] in ('order', 'downstream'):
@@ -895,6 +910,8 @@ def run_family(ctx, stream, cases, own, hook=False, timeout=20, workers=8, valid
     # build the templates first (one per distinct pipeline definition), then run the cases
     distinct = {}
     for case in cases:
+        if case.get('history'):
+            continue
         distinct.setdefault(_template_key(case['spec'], case.get('absent_outputs', False)), case)
 
     def build(case):
@@ -993,7 +1010,7 @@ def run_family(ctx, stream, cases, own, hook=False, timeout=20, workers=8, valid
                                     'stderr_tail': o['stderr'][-200:]})
     # trace validation
     if to_validate:
-        answers = validate_traces(ctx, [(c, o['trace']) for c, o in to_validate])
+        answers = validate_traces(ctx, [(c, o['trace'], o.get('driver_header')) for c, o in to_validate])
         for (case, o), a in zip(to_validate, answers):
             if a is None:
                 continue
@@ -1033,12 +1050,13 @@ def run_family(ctx, stream, cases, own, hook=False, timeout=20, workers=8, valid
         if prop not in own:
             chk.notes.append(f'{stream}: {len(lst)} run(s) violate {prop} clause `{clause}` ({kind}); reported by ./check {prop}: {f["what"]}')
             continue
-        if shrink:
+        if shrink and not case.get('history'):
             small = minimise(ctx, case, prop, clause, hook, timeout=min(timeout, 8), budget=shrink if isinstance(shrink, int) and shrink > 1 else 14)
             obs = run_case(ctx, small, hook=hook, timeout=min(timeout, 8))
             ff = [x for oo in obs for x in oracle(small, oo) if x['property'] == prop and x['clause'] == clause]
         else:
             ff = []
+            small = case
         if not ff:
             small, ff = case, [f]
             obs = [o]
@@ -1064,6 +1082,9 @@ def run_family(ctx, stream, cases, own, hook=False, timeout=20, workers=8, valid
 
 def describe(case):
     """the xvc commands that build the failing pipeline (for a human)"""
+    if case.get('history'):
+        import sched_history
+        return sched_history.describe(case)
     spec = case['spec']
     L = ['git init && xvc init']
     for i in range(spec['n']):
